@@ -127,7 +127,7 @@ function project(c, acorn, run) {
     if (!pin || pin.module) out('input not a script');
     if (!pout || pout.module) out('output not a script');
     const info = run.analyze(pin.ast, false);
-    if (info.usesEval || info.annexB) out('domain');
+    if (info.usesEval || info.annexB || info.tdzStatic) out('domain');
     const free = Array.from(info.free).filter((n) => !SPEC_BUILTINS.has(n)).sort();
     const infoOut = run.analyze(pout.ast, false);
     for (const n of infoOut.free) if (!SPEC_BUILTINS.has(n) && !free.includes(n)) out('output has new free name ' + n);
@@ -156,7 +156,7 @@ function project(c, acorn, run) {
       const env = { seed: 1, budget: 3000, spec: true, bindings: free.map((name, i) => ({ name, kind: 'spec', k: ks[i] })).filter((b) => b.k !== 10) };
       const loops = run.needsTimeout(c.in) || run.needsTimeout(c.out);
       const a = run.execute(c.in, env, lex, 0, loops ? 200 : 0);
-      if (!a.obs || a.tdz) continue;                 // outside the domain under this environment
+      if (!a.obs || a.tdz || a.stack) continue;      // outside the domain under this environment
       let b = run.execute(c.out, env, lex, 0, loops ? 10000 : 0);
       let bobs;
       if (b.syntax) bobs = { calls: [], globals: [], comp: ['throw', 'SyntaxError(early)', '', 'ok'] };
